@@ -1,6 +1,6 @@
 PROPERTY = 'C36'
 LEVEL = 'proof'
-VERUS = ['verus/C36.rs']
+VERUS = ['verus/C36.rs', 'verus/C36_handlers.rs']
 TRUSTED = [
     'Verus 0.2026.09.13 + bundled Z3; vstd (incl. its specs of i64::checked_add_unsigned, u32::checked_add)',
     'carrier Pubkey{hi, lo: u128}: a faithful 32-byte value with structural equality; DEFAULT_PUBKEY = all zero (Pubkey::new_from_array([0; 32]))',
@@ -10,24 +10,18 @@ TRUSTED = [
     'anchor require*!/error! macros per R5/R6',
 ]
 UNVERIFIED = [
-    'unchecked_execute_instruction (Context handler): the re-check that the approver still holds the timelocked role (store.has_role) and `require!(instruction.header().is_executable(delay)?)` are located by text on every run (lost => exit 2) but the handler is not proved; role membership is C18',
-    'approve_instruction handlers checking that the signer holds the timelocked role before calling approve: located by text, not proved',
+    'handlers (verus/C36_handlers.rs): loaders are projections, the store-program `check_role` CPI is assumed to answer Store::has_role (C18) and to fail unless it is true, `invoke_signed` of the buffered instruction is one ghost-ledger entry, `roles::timelocked_role` is an uninterpreted string function; the `for` loops are written as indexed while loops (unit rewrites); in load_and_init_instruction the header initialisation and the zero-copy split of the account data (load_init / exit / RefMut::map_split / bytemuck / copy_from_slice) are ONE assumed call that hands out the header and the accounts area',
     'executed / cancelled buffers cannot run again (account is closed by Anchor `close = ...`): runtime/Anchor behaviour, not expressible as a function contract here',
-    'InstructionLoader::load_and_init_instruction / InstructionAccess::to_instruction (the executed instruction is exactly the buffered program, accounts with flags, data; only the executor wallet may sign): not under contract here',
+    'InstructionAccess::to_instruction (the executed instruction is rebuilt from the buffer: program, accounts with flags, data) is not under contract; that the role given to approve_instruction is the executor\'s role is an Anchor account constraint',
     'no native replay: items of an Anchor program crate; a failed obligation is reported with the verifier output and no-failing-input-found',
 ]
 ASSUMPTIONS = ['one clock value per call (now_spec): the Clock sysvar does not change within one instruction']
 MANIFEST = dict(engine='verus',
-    technique='Verus contracts on InstructionHeader::{approve, is_approved, approved_at, apporver, is_executable}, TimelockConfig::{increase_delay, delay} and optional_address, extracted from /repo each run',
-    text='Deductive proof, unbounded over all header states, timestamps (full i64) and delays: approve succeeds at most once (an approved header rejects; the default address is rejected; rejection changes nothing), records approver and approval together and preserves flag <=> recorded approver; is_executable returns true exactly when the header is approved and now - approved_at >= delay, for every i64 clock value; increase_delay only increases the delay and fails without change on overflow. The saturating-add defect found by this contract was repaired (fix: commit, known_findings.txt).',
-    note='Trusted: Verus+Z3, carriers, clock as one uninterpreted value per call. Handler-level role re-check, buffer closing and instruction reconstruction are not covered (listed).')
+    technique='Verus contracts on InstructionHeader::{approve, is_approved, approved_at, apporver, is_executable}, TimelockConfig::{increase_delay, delay} and optional_address, extracted from /repo each run; plus the whole handlers approve_instruction, approve_instructions, validate_timelocked_role, unchecked_execute_instruction and InstructionLoader::load_and_init_instruction (signer marking) on carriers',
+    text='Deductive proof, unbounded over all header states, timestamps (full i64) and delays: approve succeeds at most once (an approved header rejects; the default address is rejected; rejection changes nothing), records approver and approval together and preserves flag <=> recorded approver; is_executable returns true exactly when the header is approved and now - approved_at >= delay, for every i64 clock value; increase_delay only increases the delay and fails without change on overflow. The saturating-add defect found by this contract was repaired (fix: commit, known_findings.txt). Handlers (whole bodies): an approval is recorded only for a signer holding the TIMELOCKED counterpart of the role, records that signer and the current time, and never re-approves; a batch approval touches only buffers of this executor; execution invokes exactly this buffer, once, and only if it is approved, its approver STILL holds the timelocked role of the executor and the configured delay has passed since the approval; when a buffer is created every account is stored with its own address and writable flag, is marked as a signer exactly when its index is listed, and an account marked as a signer IS the executor wallet.',
+    note='Trusted: Verus+Z3, carriers, clock as one uninterpreted value per call, the role CPI and invoke_signed as assumed calls. Buffer closing (Anchor `close`) and the reconstruction of the instruction from the buffer are not covered (listed).')
 
 
 def extra(res, repo, tier, seed):
-    import os, re
-    s = open(os.path.join(repo, 'programs/timelock/src/instructions/instruction_buffer.rs')).read()
-    for pat, what in [(r'instruction\.header\(\)\.is_executable\(delay\)\?', 'execute re-checks is_executable(delay)'),
-                      (r'store\.has_role\(approver, &timelocked_role\)\?', 'execute re-checks the approver role'),
-                      (r'\.approve\(approver\)\?', 'approve handler calls InstructionHeader::approve')]:
-        if not re.search(pat, s):
-            res.undecided.append(f'anchor lost: instruction_buffer.rs: {what} (/{pat}/ not found)')
+    # the handler expressions that used to be located by text are under contract now (verus/C36_handlers.rs)
+    pass
